@@ -344,6 +344,11 @@ func simC03Sets(c *Ctx) {
 		o.LongColl = []int{33, 34, 40, 64, 100, 150}[c.G(6)]
 		c.Probe("c03.long-twin-collections")
 	}
+	if c.G(4) == 0 {
+		numTripleFocus = c.G(18)
+		defer func() { numTripleFocus = -1 }()
+		c.Probe("c03.number-triple-in-focus")
+	}
 	n := 4 + c.G(20)
 	if c.G(6) == 0 {
 		// large sets: sorting and bucket code changes behaviour with size (library sorts switch algorithm
